@@ -20,30 +20,55 @@ var errInjected = errors.New("injected read failure")
 
 // chunkReader serves data in reads of the given sizes (then as much as asked),
 // ends with io.EOF or an injected error, and records how many bytes had been
-// handed out at each Read call.
+// handed out at each Read call. A negative chunk size is a Read that returns
+// (0, nil); with dataErr the Read that hands out the last byte returns the
+// terminal error in the same call (both are legal for an io.Reader).
 type chunkReader struct {
-	data   []byte
-	off    int
-	chunks []int
-	ci     int
-	ioErr  bool
-	served []int // bytes served so far, per Read call
+	data    []byte
+	off     int
+	chunks  []int
+	ci      int
+	ioErr   bool
+	dataErr bool
+	done    bool  // the terminal error has been returned: it is returned ever after
+	served  []int // bytes served so far, per Read call
+}
+
+func (r *chunkReader) term() error {
+	if r.ioErr {
+		return errInjected
+	}
+	return io.EOF
 }
 
 func (r *chunkReader) Read(p []byte) (int, error) {
 	if r.off >= len(r.data) {
 		r.served = append(r.served, r.off)
-		if r.ioErr {
-			return 0, errInjected
+		// empty reads scheduled after the last data chunk still come before the error
+		for !r.done && r.ci < len(r.chunks) {
+			c := r.chunks[r.ci]
+			r.ci++
+			if c < 0 {
+				return 0, nil
+			}
 		}
-		return 0, io.EOF
+		r.done = true
+		return 0, r.term()
+	}
+	if len(p) == 0 {
+		return 0, nil
 	}
 	n := len(p)
 	if r.ci < len(r.chunks) {
-		if r.chunks[r.ci] < n {
-			n = r.chunks[r.ci]
-		}
+		c := r.chunks[r.ci]
 		r.ci++
+		if c < 0 {
+			r.served = append(r.served, r.off)
+			return 0, nil
+		}
+		if c < n {
+			n = c
+		}
 	}
 	if n > len(r.data)-r.off {
 		n = len(r.data) - r.off
@@ -54,6 +79,10 @@ func (r *chunkReader) Read(p []byte) (int, error) {
 	copy(p, r.data[r.off:r.off+n])
 	r.off += n
 	r.served = append(r.served, r.off)
+	if r.dataErr && r.off >= len(r.data) {
+		r.done = true
+		return n, r.term()
+	}
 	return n, nil
 }
 
@@ -92,8 +121,16 @@ func parseFilesField(s string) ([]File, error) {
 			return nil, err
 		}
 		fl := File{Name: string(name), Data: data, IOErr: parts[2] == "i"}
+		if len(parts) >= 4 && strings.HasSuffix(parts[3], "!") {
+			fl.DataErr = true
+			parts[3] = strings.TrimSuffix(parts[3], "!")
+		}
 		if len(parts) >= 4 && parts[3] != "" {
 			for _, c := range strings.Split(parts[3], ",") {
+				if c == "z" {
+					fl.Chunks = append(fl.Chunks, -1)
+					continue
+				}
 				n, err := strconv.Atoi(c)
 				if err != nil {
 					return nil, err
@@ -163,7 +200,7 @@ func implRun(fields []string) (resp string) {
 	var inputs []lang.InputFile
 	var readers []*chunkReader
 	for _, f := range files {
-		r := &chunkReader{data: f.Data, chunks: f.Chunks, ioErr: f.IOErr}
+		r := &chunkReader{data: f.Data, chunks: f.Chunks, ioErr: f.IOErr, dataErr: f.DataErr}
 		readers = append(readers, r)
 		inputs = append(inputs, lang.InputFile{Name: f.Name, Reader: r})
 	}
@@ -172,7 +209,7 @@ func implRun(fields []string) (resp string) {
 	}
 	ev, err := lang.EvalProgram(string(prog), inputs, sels, &out, false)
 	marks := ""
-	if len(files) == 1 && len(files[0].Chunks) > 0 {
+	if len(files) == 1 && (len(files[0].Chunks) > 0 || files[0].DataErr) {
 		marks = " marks=" + strings.Join(out.marks, ",")
 		if len(out.marks) == 0 {
 			marks = " marks=-"
